@@ -17,8 +17,6 @@ from scverif.loader import ordered_locals, _outer_functions
 order = {}
 for m in r.modules.values():
     for fq, fn in _outer_functions(m):
-        ol = ordered_locals(fn)
-        if ol:
-            order[fq] = ol
+        order[fq] = ordered_locals(fn)
 json.dump(order, open(os.path.join(os.path.dirname(os.path.dirname(os.path.abspath(__file__))), 'scverif', 'refs', 'locals_order.json'), 'w'), indent=0, sort_keys=True)
 print(len(order), 'functions with pinned local order')
